@@ -304,8 +304,11 @@ smtp_data(void)
 	sync_pipelining();
 
 	int i = queue_init();
-	if (i)
+	if (i) {
+		/* qmail-queue can not be started: this transaction has failed */
+		freedata();
 		return i;
+	}
 
 	if (netwrite("354 Start mail input; end with <CRLF>.<CRLF>\r\n")) {
 		int e = errno;
